@@ -4,8 +4,9 @@ P="$1"; shift
 cd /repo || exit 2
 git diff --quiet || { echo "/repo is dirty"; exit 2; }
 git apply "$P" || { echo "patch does not apply"; exit 2; }
+mkdir -p /tmp/ev-scratch
 for id in "$@"; do
-  (cd /verif && ./check "$id" ${TIER:+--tier $TIER}; echo "exit=$?")
+  (cd /verif && VERIF_EVIDENCE_DIR=/tmp/ev-scratch ./check "$id" ${TIER:+--tier $TIER}; echo "exit=$?")
 done
 git -C /repo checkout -- .
 git -C /repo status --short | head -3
